@@ -736,7 +736,7 @@ def judge_graph(ctx, case, out, reply, keys):
             if oo and "err" not in oo and oo["status"] == "OPTIMAL" and (fn != "astar" or (case["h"]["kind"] != "bad")):
                 costs[fn] = scaled(oo["obj"], sc)
         oo = out["floyd_warshall"]
-        if "err" not in oo and oo["sol"] is not None:
+        if case["fw_directed"] and "err" not in oo and oo["sol"] is not None:
             x = oo["sol"][s][t]
             if x != "inf":
                 costs["floyd_warshall"] = scaled(x, sc)
